@@ -17,6 +17,7 @@ PLAN = dict(
                 "cross-checked by an independent parser so that URL identity does not rest on net/url being idempotent."),
     level_note=NOTE_BASE,
     runs=[
+        dict(name="conc", run="^(TestConcRoundTrip)$", checks=(15, 1000), shards=(2, 8), timeout=(400, 3600), race=True),
         dict(name="rt", run="^(TestPropRoundTrip|TestCorpus)$", checks=(1500, 200000), shards=(2, 16), timeout=(300, 3600)),
         dict(name="large", run="^TestLargeBodies$", timeout=(300, 1800), mem_gb=6),
     ],
